@@ -186,3 +186,24 @@ CHECKS["C12"] = dict(
     design_ref="DESIGN.md 9/C12, 7.6",
     level_text="Exhaustive within bounds on the real ring buffer (SPSC: two threads), plus the happens-before pass over payload bytes.",
 )
+
+RCU_RULE = ("every schedule with <= c preemptions of reader/writer programs (instruction lists over lock/unlock with nesting, load, dereference, swap+retire, retire, batch_retire, synchronize) "
+            "on the real cds::urcu::gc<...>; flip-and-wait loops are yield choices; outcome = the log of calls and disposals; non-trivial = a read-side section exists in the execution")
+CHECKS["C04"] = dict(
+    title="RCU never reclaims under a pre-existing reader",
+    units=[dict(name="rcu", src="harness/rcu.cpp", args=["--property", "C04"], ldflags=["-ldl"])],
+    rule=RCU_RULE,
+    explanation="general_instant, general_buffered (capacity 2, 4), general_threaded (capacity 2, 4; the reclamation thread is a scheduled participant through hook H3) and signal_buffered (capacity 2, 4; sigaction/pthread_kill are interposed by the harness executable and the handler runs on the target participant, immediately and atomically) with the scheduler's mutex: "
+                "no disposal while a reader that entered before the retirement is still inside (nesting counted); synchronize() does not return while such a reader is inside; "
+                "a pointer loaded inside a read section is never disposed before the section ends. Capacity 1 is not driven: the default buffer (VyukovMPMCCycleQueue) asserts capacity >= 2",
+    design_ref="DESIGN.md 9/C04, 7.3",
+    level_text="Exhaustive within bounds on the real RCU implementations under the controlled scheduler, checked by the lifetime ledger with reader intervals.",
+)
+CHECKS["C05"] = dict(
+    title="RCU disposes exactly once",
+    units=[dict(name="rcu", src="harness/rcu.cpp", args=["--property", "C05"], ldflags=["-ldl"])],
+    rule=RCU_RULE,
+    explanation="same programs plus sequential retire/batch_retire/synchronize/destruct histories and racing retirers on a full buffer; per-object disposer count exactly 1 by destruction of the singleton, never before a grace period",
+    design_ref="DESIGN.md 9/C05, 7.3",
+    level_text="Exhaustive within bounds on the real RCU implementations; exactly-once is checked per object on every execution.",
+)
